@@ -8,7 +8,7 @@ results carry `false` under NULL slots, because WHERE and JOIN ON read the raw b
 The NULL-join-key clause is decided under C11-R1. Everything else of C02 is not decided."""
 import re
 
-from tmpl import site, suffix, flows_from, origin_locals
+from tmpl import site, suffix, flows_from, origin_locals, pl_fields
 
 EVAL = "executor::evaluator::Evaluator::<'a>::"
 
@@ -65,6 +65,7 @@ def run(ctx):
                    what=f'COUNT(DISTINCT x) counts NULL as a value ({fn} inserts every value into the distinct set)')
     ctx.floor(R2, n, 2, 'insertions into the distinct-value set')
 
+    cte_rule(ctx, prog)
     run_r4(ctx, prog)   # three-valued logic in WHERE/ON: a NULL predicate must not read as TRUE (same rule as C14-R6)
     R3 = 'C02-R3'
     ctx.rule(R3, 'SUM on the per-value path (hash/sort aggregation): the combinator applied to (state, value) must skip a NULL '
@@ -111,3 +112,36 @@ def run_r4(ctx, prog):
 
 def short(n):
     return re.sub(r'<[^<>]*>', '', n or '?')
+
+
+def cte_rule(ctx, prog):
+    R5 = 'C02-R5'
+    ctx.rule(R5, 'two references to a relation are two relations: a base-table reference draws a fresh table occurrence for its column ids; a '
+                 'CTE is bound once, so a reference to it must re-bind the CTE (bind_query) or be refused when the CTE has been '
+                 'referenced before (a set insertion with an error exit); otherwise `w w1, w w2` compares a column with itself')
+    bt = next((b for n, b in prog.bodies.items() if n.endswith('::bind_table_def') and 'binder::table' in n), None)
+    if ctx.anchor(R5, 'binder::table::bind_table_def', bt is not None):
+        ctx.functions_analysed.add(bt.name)
+        fc = [c for c in bt.calls if (c.fn or '').endswith('Binder::find_cte')]
+        if ctx.anchor(R5, 'bind_table_def: find_cte', fc):
+            # the Some arm of the match on find_cte's result
+            some_t = []
+            for i, bl in enumerate(bt.blocks):
+                t = bl['term']
+                if t['k'] == 'switch' and t.get('adt') == 'std::option::Option' and bl['term'].get('on') and \
+                        any(c.dest['l'] in origin_locals(bt, t['on']['l'], depth=4) for c in fc):
+                    names = t.get('variants', {})
+                    some_t += [tgt for v, tgt in t['targets'] if names.get(str(v)) == 'Some']
+                    none_t = [tgt for v, tgt in t['targets'] if names.get(str(v)) == 'None'] + ([t['otherwise']] if t.get('otherwise') is not None else [])
+            region = bt.reachable_from(some_t, avoid=set(none_t) - set(some_t)) if some_t else set()
+            rebind = [c for c in bt.calls if c.bb in region and re.search(r'bind_query', c.fn or '')]
+            guard = [c for c in bt.calls if c.bb in region and re.search(r'Hash(Set|Map)::<.*>::insert$', c.name or '')
+                     and bt.reachable_from([c.bb]) & bt.error_exit_blocks()]
+            ctx.ob(R5, 'bind_table_def·cte-reference-is-fresh-or-refused', bool(rebind) or bool(guard),
+                   f'CTE branch blocks {sorted(region)[:6]}..: re-binds: {len(rebind)}; first-reference guard with an error exit: {[c.bb for c in guard]}',
+                   [site(bt, c.bb) for c in (guard or rebind or fc)],
+                   what='a second reference to a CTE reuses the column ids of the first: `with w as (..) select * from w w1, w w2 where w1.a = '
+                        'w2.b` compares a column with itself and returns wrong rows')
+        occ = [st for _, st in bt.stmts() if st['s'] == 'assign' and st['rv'].get('rv') == 'ref' and
+               any(f.endswith('Binder::table_occurrences') for f in pl_fields(st['rv']['pl']))]
+        ctx.ob(R5, 'bind_table_def·base-table-occurrence', bool(occ), f'bind_table_def updates table_occurrences: {bool(occ)}', [bt.loc])
